@@ -63,7 +63,7 @@ M = [
  ('C19-magic-assert', 'C19', 'elftools/elf/elffile.py',
   "        elf_assert(magic == b'\\x7fELF', 'Magic number does not match')\n", "        assert magic == b'\\x7fELF', 'Magic number does not match'\n", 'detect'),
  ('C19-note-size-unchecked', 'C19', 'elftools/elf/notes.py',
-  "        if offset + note['n_namesz'] > limit or \\\n", "        if False and offset + note['n_namesz'] > limit or \\\n", 'detect'),
+  "        limit = min(end, elffile.stream_len)\n", "        limit = 1 << 64\n", 'detect'),
  ('C19-phoff-zero', 'C19', 'elftools/elf/elffile.py',
   "        if self['e_phoff'] == 0:\n            # No program header table\n            return 0\n", "", 'detect'),
  ('C19-ehdr-unwrapped', 'C19', 'elftools/elf/elffile.py',
@@ -76,10 +76,11 @@ M = [
   "                if _file_crc32(ext_file) != debuglink.checksum:\n", "                if debuglink.checksum and _file_crc32(ext_file) != debuglink.checksum & 0xffffff00 | _file_crc32(ext_file) & 0xff:\n", 'detect'),
  ('C11-zdebug-one-naming', 'C11', 'elftools/elf/elffile.py',
   "            if section is None and secname.startswith('.debug_'):\n", "            if section is None and secname.startswith('.debug_') and self.has_section('.zdebug_info'):\n", 'detect'),
- ('C09-address-offsets-lt', 'C09', 'elftools/elf/elffile.py',
-  "                end <= seg['p_vaddr'] + seg['p_filesz']):\n", "                end < seg['p_vaddr'] + seg['p_filesz']):\n", 'detect'),
- ('C09-address-offsets-memsz', 'C09', 'elftools/elf/elffile.py',
-  "                end <= seg['p_vaddr'] + seg['p_filesz']):\n", "                end <= seg['p_vaddr'] + seg['p_memsz']):\n", 'detect'),
+ ('C09-dynstr-section-preferred', 'C09', 'elftools/elf/dynamic.py',
+  "        _, table_offset = self.get_table_offset('DT_STRTAB')\n        if table_offset is not None:\n",
+  "        _, table_offset = self.get_table_offset('DT_STRTAB')\n        if table_offset is not None and self._num_tags == -1:\n", 'detect'),
+ ('C09-symbol-entry-size', 'C09', 'elftools/elf/dynamic.py',
+  "            stream_pos=tab_offset + index * self._symbol_size)\n", "            stream_pos=tab_offset + index * (self._symbol_size if index < 64 else 16))\n", 'detect'),
  ('C09-gnuhash-count-trusted', 'C09', 'elftools/elf/dynamic.py',
   "            if any(b >= symoffset for b in hash_section.params['buckets']):\n", "            if True:\n", 'detect'),
  ('C09-numtags-cache-off-by-one', 'C09', 'elftools/elf/dynamic.py',
